@@ -226,8 +226,9 @@ def layout(spec):
     return blocks
 
 
-def model_links(blocks):
-    """Reference linkage: {(i, name): name of the linked solid component in block i-1 or None}.
+def model_links(blocks, rule="stock"):
+    """Reference linkage (``rule`` = the linkage rule in force: armi's stock rule or one installed through the
+    documented override hook AssemblyAxialLinkage.areAxiallyLinked: "name", "never", "ignore-mult"): {(i, name): name of the linked solid component in block i-1 or None}.
 
     Documented criteria (areAxiallyLinked): both solid, identical shape type, identical multiplicity, and the larger
     of the inner bounding diameters below the smaller of the outer bounding diameters.  ``None`` when no candidate;
@@ -241,12 +242,26 @@ def model_links(blocks):
             found = []
             if i > 0:
                 for o in blocks[i - 1]["comps"]:
-                    if not o["solid"] or o["shape"] != c["shape"] or o["mult"] != c["mult"]:
+                    if not o["solid"] or rule == "never":
+                        continue
+                    if rule == "name":
+                        if o["name"] == c["name"]:
+                            found.append(o["name"])
+                        continue
+                    if o["shape"] != c["shape"] or (rule != "ignore-mult" and o["mult"] != c["mult"]):
                         continue
                     if max(c["inner"], o["inner"]) < min(c["outer"], o["outer"]):
                         found.append(o["name"])
             links[(i, c["name"])] = None if not found else (found[0] if len(found) == 1 else "<multiple>")
     return links
+
+
+def ambiguous(blocks, rule):
+    """True when some solid component would have more than one link below OR above under ``rule`` (armi searches both
+    directions and documents a RuntimeError 'indicative of an error in the blueprints' for that)."""
+    if any(v == "<multiple>" for v in model_links(blocks, rule).values()):
+        return True
+    return any(v == "<multiple>" for v in model_links(list(reversed(blocks)), rule).values())
 
 
 # ---------------------------------------------------------------------------------------------
@@ -262,12 +277,12 @@ def _mk_component(c, tin=25.0):
     return cls(c["name"], c["material"], Tinput=tin, Thot=c["Thot"], **c["dims"])
 
 
-def build_direct(blocks):
+def build_direct(blocks, atype="testAssemblyType"):
     from armi.reactor import grids
     from armi.reactor.assemblies import HexAssembly
     from armi.reactor.blocks import HexBlock
 
-    a = HexAssembly("testAssemblyType")
+    a = HexAssembly(atype)
     a.spatialGrid = grids.AxialGrid.fromNCells(numCells=1)
     a.spatialGrid.armiObject = a
     for bd in blocks:
